@@ -1910,9 +1910,15 @@ type _getElemRef struct{}
 var getElemRef _getElemRef
 
 func (_getElemRef) exec(vm *vm) {
+	if vm.pushNullBaseRef(vm.stack[vm.sp-2]) {
+		vm.sp -= 2
+		vm.pc++
+		return
+	}
 	obj := vm.stack[vm.sp-2].ToObject(vm.r)
 	propName := vm.stack[vm.sp-1]
 	vm.refStack = append(vm.refStack, &objRef{
+		this: primitiveReceiver(vm.stack[vm.sp-2]),
 		base: obj,
 		name: propName,
 	})
@@ -1941,9 +1947,15 @@ type _getElemRefStrict struct{}
 var getElemRefStrict _getElemRefStrict
 
 func (_getElemRefStrict) exec(vm *vm) {
+	if vm.pushNullBaseRef(vm.stack[vm.sp-2]) {
+		vm.sp -= 2
+		vm.pc++
+		return
+	}
 	obj := vm.stack[vm.sp-2].ToObject(vm.r)
 	propName := vm.stack[vm.sp-1]
 	vm.refStack = append(vm.refStack, &objRef{
+		this:   primitiveReceiver(vm.stack[vm.sp-2]),
 		base:   obj,
 		name:   propName,
 		strict: true,
@@ -2228,10 +2240,48 @@ func (d deletePropStrict) exec(vm *vm) {
 	vm.pc++
 }
 
+// nullBaseRef is a property reference whose base is undefined or null. Evaluating such a reference does not
+// throw; reading or writing through it does (GetValue / PutValue call ToObject on the base). This matters for
+// destructuring assignment, where the source property is read (or the iterator stepped) between the two.
+type nullBaseRef struct {
+	r    *Runtime
+	base Value
+}
+
+func (r *nullBaseRef) get() Value               { return r.base.ToObject(r.r) }
+func (r *nullBaseRef) set(Value)                { r.base.ToObject(r.r) }
+func (r *nullBaseRef) init(Value)               { r.base.ToObject(r.r) }
+func (r *nullBaseRef) refname() unistring.String { return "" }
+
+// pushNullBaseRef pushes a nullBaseRef and returns true if v is undefined or null.
+func (vm *vm) pushNullBaseRef(v Value) bool {
+	if v == _undefined || v == _null {
+		vm.refStack = append(vm.refStack, &nullBaseRef{r: vm.r, base: v})
+		return true
+	}
+	return false
+}
+
+// primitiveReceiver returns v if it is a primitive value, so that a property reference based on it keeps the
+// primitive as the receiver of [[Get]]/[[Set]] (a [[Set]] then fails, which is a TypeError in strict code),
+// and nil for objects (the reference's base object is the receiver).
+func primitiveReceiver(v Value) Value {
+	if _, ok := v.(*Object); ok {
+		return nil
+	}
+	return v
+}
+
 type getPropRef unistring.String
 
 func (p getPropRef) exec(vm *vm) {
+	if vm.pushNullBaseRef(vm.stack[vm.sp-1]) {
+		vm.sp--
+		vm.pc++
+		return
+	}
 	vm.refStack = append(vm.refStack, &objStrRef{
+		this: primitiveReceiver(vm.stack[vm.sp-1]),
 		base: vm.stack[vm.sp-1].ToObject(vm.r),
 		name: unistring.String(p),
 	})
@@ -2254,7 +2304,13 @@ func (p getPropRefRecv) exec(vm *vm) {
 type getPropRefStrict unistring.String
 
 func (p getPropRefStrict) exec(vm *vm) {
+	if vm.pushNullBaseRef(vm.stack[vm.sp-1]) {
+		vm.sp--
+		vm.pc++
+		return
+	}
 	vm.refStack = append(vm.refStack, &objStrRef{
+		this:   primitiveReceiver(vm.stack[vm.sp-1]),
 		base:   vm.stack[vm.sp-1].ToObject(vm.r),
 		name:   unistring.String(p),
 		strict: true,
